@@ -15,7 +15,7 @@ INFO = {
 
 PATTERNS = ['/x', '/x/', '/x/<a>', '/<a>', '/<a>/<b?>', '/z/<p*>', '/x/<n:int>', '/', '/y/<q+>/', '/<a>/', '/x/<a>/<b>']
 METHODS = [None, ['GET'], ['POST'], ['GET', 'POST'], ['put', 'delete'], ['HEAD'], ['OPTIONS', 'PATCH'], [], ['get'], ['Get', 'post'], ['head', 'PUT']]
-BEH = ['answer', 'answer', 'raise403', 'ret404', 'nb403', 'nbret404', 'boom', 'raise500', 'ret503', 'nb500']
+BEH = ['answer', 'answer', 'raise403', 'ret404', 'nb403', 'nbret404', 'boom', 'raise500', 'ret503', 'nb500', 'nb403-shared', 'nbret404-shared']
 PATHS = ['/x', '/x/', '/x/1', '/x/a', '/z', '/', '/x/a/b', '/y/1/2/', '/y/1', '//x', '/y', '/z/q/r']
 REQM = ['GET', 'HEAD', 'POST', 'PUT', 'DELETE', 'OPTIONS', 'get', 'FOO']
 ENTRY_KINDS = ['route', 'tuple', 'class']
@@ -106,6 +106,7 @@ def check_request(ctx, app, table, path, method, case):
 def body(case, ctx, requests=None):
     case = {'mode': case['mode'], 'build': case['build'], 'routes': [list(r) for r in case['routes']]}
     ctx.current = case
+    M.reset_shared()
     app, table = build(case)
     got = [r.pattern for r in app.routes]
     want = [e.pattern for e in table]
